@@ -446,6 +446,56 @@ def rule_underscore(model):
 
 
 # ---------------------------------------------------------------- R4
+class _CodeDomain(Domain):
+    """Eval.eval with a guard present: where does the evaluated code object
+    come from?"""
+
+    def __init__(self, gv):
+        self.gv = gv
+        self.sites = []
+
+    def branch(self, test, st):
+        t = norm(test)
+        if t == f'{self.gv} is not None':
+            return [(True, st)]
+        if t == f'{self.gv} is None':
+            return [(False, st)]
+        return [(True, st), (False, st)]
+
+    def raises(self, node, st):
+        return []
+
+    def _note(self, node, st):
+        for c in ast.walk(node):
+            if isinstance(c, ast.Call) and isinstance(c.func, ast.Name) and \
+                    c.func.id == 'eval' and c.args:
+                a = c.args[0]
+                kind = st.env.get(a.id, 'other') if isinstance(a, ast.Name) \
+                    else (a.attr if isinstance(a, ast.Attribute) and
+                          a.attr in ('rcode', 'ucode') else 'other')
+                self.sites.append((c, kind))
+
+    def effects(self, stmt, st):
+        self._note(stmt, st)
+        if isinstance(stmt, ast.Assign) and len(stmt.targets) == 1 and \
+                isinstance(stmt.targets[0], ast.Name):
+            v = stmt.value
+            kind = 'other'
+            if isinstance(v, ast.Attribute) and v.attr in ('rcode', 'ucode') \
+                    and norm(v.value) == 'self':
+                kind = v.attr
+            elif isinstance(v, ast.Name):
+                kind = st.env.get(v.id, 'other')
+            st = st.copy()
+            st.env[stmt.targets[0].id] = kind
+        return st
+
+    def on_return(self, node, st):
+        if node.value is not None:
+            self._note(node.value, st)
+        return [], st
+
+
 def rule_restricted(model):
     r = RuleResult('C05.R4', 'with guards present expressions run as '
                    'restricted code with _getattr_/_getitem_ bound to the '
@@ -518,6 +568,24 @@ def rule_restricted(model):
           and isinstance(n.func, ast.Name) and n.func.id == 'eval']
     if not ev:
         raise AnalysisError('Eval.eval: eval() call not found')
+    # on every path with a guard present the code object handed to eval()
+    # was read from self.rcode (path-sensitive reaching definition)
+    cdom = _CodeDomain(gv)
+    Interp(cdom).run(fi.node, _OS())
+    seen_k = set()
+    for node, kind in cdom.sites:
+        if kind in seen_k:
+            continue
+        seen_k.add(kind)
+        r.instance(fi.where, node, f'guard present: evaluates {kind}')
+        if kind != 'rcode':
+            r.finding(fi.where, f'eval({kind})', 'with a guard present the '
+                      'code object evaluated is not (on every path) the '
+                      'restricted code self.rcode (e.g. a code object '
+                      'remembered from an earlier, unrestricted '
+                      'evaluation)', node=node, ctx=fi)
+    if not cdom.sites:
+        raise AnalysisError('Eval.eval: eval() not reached with a guard')
     # d.update(self.globals) must not come after names override guards:
     # names are only added when absent
     for n in own_nodes(fi.node):
